@@ -305,6 +305,50 @@ func runC12(c *engine.Ctx) {
 			}
 		}
 	})
+	// chains with an SK payload at every position and unsupported (non-critical) payloads around it:
+	// what the decoder skips must not change what the encoder links
+	al := univ.Alphabet()
+	skp := ref.Payload{T: ref.PSK, Data: univ.Pat(40, 7)}
+	for ai := 0; ai < len(al); ai += 3 {
+		if !c.Mine() {
+			continue
+		}
+		a, b := al[ai].P, al[(ai*5+2)%len(al)].P
+		for _, ut := range []uint8{1, 32, 49, 99, 200, 255} {
+			u := ref.Payload{T: ut, Data: univ.Pat(int(ut)%7, 3)}
+			for _, chain := range [][]ref.Payload{{skp, u, a}, {skp, u, u, a, b}, {a, skp, u, b}, {u, skp, a}, {a, u, skp}, {skp, a, u}, {a, u, b, u}, {u, a}, {skp, u}} {
+				if wb, err := ref.Encode(ref.Msg{H: univ.BaseHdr, P: chain}, ref.Lib{}); err == nil {
+					run("msg", wb, "sk+unsupported-chain")
+				}
+			}
+		}
+	}
+	// EAP-AKA' attributes of every type code (also those the library has no dedicated reader for), with
+	// octets 2-3 looking like a length, a bit length or reserved zeros
+	for t := 0; t < 256; t++ {
+		if !c.Mine() {
+			continue
+		}
+		for words := 1; words <= 4; words++ {
+			for _, h := range [][2]byte{{0, 0}, {0, 1}, {0, 5}, {0, 8}, {0, 40}, {0xff, 0xff}} {
+				for fill := 0; fill < 2; fill++ {
+					body := append([]byte{h[0], h[1]}, univ.Fill(4*words-4, 0)...)
+					if fill == 1 {
+						copy(body[2:], univ.Pat(4*words-4, t+words))
+						if n := int(h[1]); h[0] == 0 && n > 0 && 2+n < len(body) {
+							for i := 2 + n; i < len(body); i++ {
+								body[i] = 0 // zero padding after an "actual length" worth of octets
+							}
+						}
+					}
+					at := append([]byte{byte(t), byte(words)}, body...)
+					pkt := append([]byte{1, 9, 0, byte(8 + len(at) + 4), 50, 1, 0, 0}, at...)
+					pkt = append(pkt, 24, 1, 0, 1) // a following AT_KDF shows mis-framing
+					run("eap", pkt, "aka-attr-type")
+				}
+			}
+		}
+	}
 	// field sweeps: canonical encodings only (byte identity)
 	univ.Sweeps(c.Thorough(), func(name string, m ref.Msg, fits bool) {
 		if !fits || !c.Mine() {
